@@ -188,7 +188,9 @@ let () =
          or P<hexform> (OAuth2 POST), tokscript = the token service's answers *)
       let p = table_policy (parse_pred pred) (z_of_string mr) (z_of_string mn) (z_of_string mx)
           (List.map z_of_string (split_on ',' tbl)) (z_of_string dflt) in
-      let bd = { bk = parse_kind kind; bdata = str_of_hex body } in
+      let bd = if kind.[0] = 'M'   (* manifest push through the auth client: buffered *)
+        then manifest_push_body true { bk = parse_kind (String.sub kind 1 (String.length kind - 1)); bdata = str_of_hex body }
+        else { bk = parse_kind kind; bdata = str_of_hex body } in
       let tb = if tokbody.[0] = 'P'
         then { bk = KReplay; bdata = str_of_hex (String.sub tokbody 1 (String.length tokbody - 1)) }
         else { bk = KNone; bdata = [] } in
